@@ -97,7 +97,9 @@ def check_pinned(eng, pc, pins, extra=()):
     for c in pins:
         ok, _ = eng.check(pc + keep + [c])
         if ok: keep.append(c)
-    return eng.check(pc + keep)
+    sat, m = eng.check(pc + keep)
+    if not sat: eng.no_model = getattr(eng, 'no_model', 0) + 1          # a completed path without a model: surfaced as inconclusive by Summary.absorb_engine
+    return sat, m
 
 def model_tag(lz, model, prefer='Null'):
     """the tag an unmaterialised lazy part has under the model (falls back to the pin)"""
